@@ -221,6 +221,8 @@ def door_avro_doc(name, fields):
 
     from flow.record.adapter.avro import AvroReader
 
+    if not fields:
+        return "door-closed"  # the reader recognises an embedded definition by its closing "]]]": a field-less one is not carried by this door
     _n[0] += 1
     p = os.path.join(os.environ["VERIF_SCRATCH"], "c06-%d-%d.avro" % (os.getpid(), _n[0]))
     schema = {"type": "record", "name": "x", "doc": json.dumps([name, [list(x) for x in fields]]), "fields": [{"name": "f%d" % i, "type": ["string", "null"]} for i in range(len(fields))]}
@@ -482,6 +484,16 @@ def cases(tier, seed):
         "a" * 255, "a" * 256, "a" * 65535, "b" * 100000, "a b", "a\tb", "a.b", "a-b", "a/", "/a", "a//b", "a/1", "1a", "_a", "a_", "A", "aZ09_", "\u0430", "a\u0301", "\u212a", "\uff21",
         "a\nb", "a\rb", "a\x00", "\x00a", "\ufeffa", "a\u200b", "a\u2028b",
     ] + list(keyword.kwlist) + list(getattr(keyword, "softkwlist", []))
+    # a valid prefix of a length at which an implementation might stop looking, followed by what must be refused
+    for n in (63, 64, 255, 256, 1023, 1024, 4095, 4096, 4097, 8192, 65535, 65536):
+        for tail in ("\u0430", "/", " x", "\n", "-", "(Record): pass\n%s\nclass y" % trip, "=None):\n        pass\n%s\n    def f(x" % trip):
+            s = "a" * n + tail
+            yield {"what": "type-name", "cls": "long-prefix:" + classify_string(tail), "name": s, "fields": ok_fields, "doors": ["ctor", "stream", "json", "avro-doc"]}
+            yield {"what": "field-name", "cls": "long-prefix:" + classify_string(tail), "name": "ok/type", "fields": [["string", s]], "doors": ["ctor", "stream", "json", "avro-doc"]}
+            yield {"what": "type-name", "cls": "long-prefix:" + classify_string(tail), "name": "ns/" * (n // 3) + "t" + tail, "fields": ok_fields, "doors": ["ctor", "stream"]}
+    # the same type-name candidates with an EMPTY field list (a record type without fields is legal)
+    for s in payloads + ["ok/name", "a b", "a\nb", " padded ", "test/x\nuint32 injected", "test/x\n    string injected;", "x\ty", "a/b\n", "\na"]:
+        yield {"what": "type-name", "cls": "no-fields:" + classify_string(s), "name": s, "fields": [], "doors": ["ctor", "stream", "json", "avro-doc"]}
     for s in payloads:
         doors = ["ctor", "stream", "json", "avro-doc", "avro-names"]
         yield {"what": "type-name", "cls": classify_string(s), "name": s, "fields": ok_fields, "doors": doors}
